@@ -318,13 +318,15 @@ def check_wire():
     assert empty.decoded_nodes == [] and empty.decoded_nodes_all_subsets == []
     assert not any(hasattr(empty, name) for name in WIRING_STATE + ('index_to_node', 'decoded_descriptors'))
 
-    # no subsets, compressed: subset 0 is wired unconditionally -> IndexError,
-    # and the flag stays set, so the second call is silent
+    # no subsets, compressed: subset 0 is wired unconditionally -> IndexError
+    # (rebased: since "fix: data are marked as wired only after the wiring went through" the flag
+    # is not set by a failed wiring, so the second call meets the failure again instead of being silent)
     empty = TemplateData(template, True, [], [], [])
     raises(IndexError, empty.wire)
-    assert empty._is_wired is True and not hasattr(empty, 'index_to_node')
+    assert empty._is_wired is False and not hasattr(empty, 'index_to_node')
     assert not hasattr(empty, 'decoded_descriptors')
-    assert empty.wire() is None
+    raises(IndexError, empty.wire)
+    assert empty._is_wired is False
 
     # flat lists shorter than the template: fails in the middle of subset 0
     cut = 5
@@ -333,13 +335,12 @@ def check_wire():
                          [vs[:cut] for vs in good.decoded_values_all_subsets],
                          [dict(links) for links in good.bitmap_links_all_subsets])
     raises(IndexError, short.wire)
-    assert short._is_wired is True
+    assert short._is_wired is False  # rebased: was True before the fix
     assert hasattr(short, 'index_to_node')  # not released on failure
     assert short.decoded_nodes is not None and short.decoded_descriptors is short.decoded_descriptors_all_subsets[0]
     assert short.decoded_nodes_all_subsets[1] == []  # subset 1 never started
-    partial = [describe_nodes(nodes) for nodes in short.decoded_nodes_all_subsets]
-    assert short.wire() is None  # no second attempt
-    assert [describe_nodes(nodes) for nodes in short.decoded_nodes_all_subsets] == partial
+    raises(IndexError, short.wire)  # rebased: the second attempt fails the same way (was a silent no-op)
+    assert short._is_wired is False and short.decoded_nodes_all_subsets[1] == []
 
     # second subset broken only: subset 0 is complete, subset 1 partial
     broken = TemplateData(template, False,
@@ -350,7 +351,8 @@ def check_wire():
     good.wire()
     assert describe_nodes(broken.decoded_nodes_all_subsets[0]) == describe_nodes(good.decoded_nodes_all_subsets[0])
     assert broken.decoded_descriptors is broken.decoded_descriptors_all_subsets[1]
-    assert hasattr(broken, 'index_to_node') and broken.wire() is None
+    assert hasattr(broken, 'index_to_node') and broken._is_wired is False
+    raises(IndexError, broken.wire)  # rebased: met again on the next attempt (was a silent no-op)
 
     # the lists of the subsets disagree in number: n_subsets follows the descriptors
     odd = TemplateData(template, False, good.decoded_descriptors_all_subsets, good.decoded_values_all_subsets[:1], [{}])
